@@ -710,11 +710,8 @@ impl<S: StoreAccess> Runner<S> {
                 Ok(())
             }
             Err(e) => {
-                // only C03 speaks about when an authentication succeeds; elsewhere a refusal is counted, and the counter
+                // no statement promises that such an assertion succeeds (C03 constrains the successful ones): a refusal is counted, and the counter
                 // model is brought in line with the store (a refused assertion may have advanced it by one)
-                if self.oracles.c03 {
-                    return Err(format!("a satisfiable CTAP2 assertion failed with 0x{:02X}", u8::from(e)));
-                }
                 self.stats.auth_unexpected_err += 1;
                 self.stats.last_error = format!("CTAP2 getAssertion: 0x{:02X}", u8::from(e));
                 if let (Some(a), Some(prev)) = (after.iter().find(|s| s.id == id), self.model[mi].counter) {
